@@ -69,7 +69,10 @@ CLAIMS = {
               "toMs_output_parses, toMs_output_validators_ok, buildState_never_raises — the event loop never raises on a command the ms interpreter runs —, toMs_output_finishDoc_ok: "
               "the assembled document satisfies C03's specification, so resolve accepts it), hence the unconditional ms_roundtrip_sem / ms_roundtrip_sem_all (for EVERY valid "
               "ms-expressible graph with constant-size epochs and PulsesTame pulses: from_ms(to_ms(g)) returns a graph whose demography refines that of g with normalised ancestry "
-              "proportions — g itself when they sum to exactly 1), the counterexamples showing each hypothesis is needed "
+              "proportions — g itself when they sum to exactly 1), ms_roundtrip_names_accepts / ms_roundtrip_names (the same with deme_names = the graph's own names: the result is the unnamed result renamed, every name is on "
+              "the right deme, the observable read with the graph's names is the same; graphSem_rename_invariant: the observable does not depend on what the demes are called; "
+              "ms_roundtrip_names_order_counterexample: the demes come back sorted by start time, so in the graph's own ORDER only when that order is already sorted — "
+              "ms_roundtrip_names_order_partial; placeholder names like deme2 in the original graph are harmless), the counterexamples showing each hypothesis is needed "
               "(ms_roundtrip_acceptance_counterexample = ms_roundtrip_pulse1_counterexample: known finding F6; toMs_tame_needs_pulse_order, toMs_tame_needs_pulse_below_one), "
               "ms_roundtrip_accepts_order_not_necessary (the pulse-order clause of PulsesTame comes from the method: a chain A->B, B->C at one time is accepted), "
               "ingress_tolerance_witness. Epochs with exponential growth (printing "
